@@ -635,6 +635,8 @@ func (ex *Explorer) resetPath(w workItem) {
 	ex.regions = map[string]*Term{}
 	ex.unconf = false
 	ex.envDepth = 0
+	ex.envHook = nil
+	activeTimers = nil
 	ex.pathObl, ex.pathDis, ex.pathTriv, ex.pathViol = ex.Obligations, ex.Discharged, ex.Trivial, len(ex.Violations)
 	ex.randStarted = false
 	ex.randNext = 0
